@@ -103,4 +103,25 @@ theorem wrap_spec (X : Seg) (nrows ncols nbands bd : Nat) (o : ReaderOptions) (w
         one (insAx 2 1 idx) 1 f0 f1 (fun _ => ⟨by rw [f2]; rfl, by omega⟩)]
     cases iq <;> rfl
 
+/-- the same without a format function, for any band number `b` that names the band axis entry (none when there is one band) -/
+theorem wrap_spec_plain (X : Seg) (nrows ncols nbands bd : Nat) (o : ReaderOptions) (w : Option Bool × List Nat × List Nat)
+    (P : Nat → Nat → Nat → Src) (hw : OrientOK nrows ncols nbands bd o w) (hX : X.wf = true)
+    (hXs : X.fshape = getShape nrows ncols nbands bd) (hn : w.1 = none)
+    (hraw : RawSpec X nrows ncols nbands bd P) (idx : Idx)
+    (h00 : 0 ≤ idx 0) (h01 : idx 0 < ((if o.transpose then ncols else nrows : Nat) : Int))
+    (h10 : 0 ≤ idx 1) (h11 : idx 1 < ((if o.transpose then nrows else ncols : Nat) : Int))
+    (b : Nat) (hb : nbands ≠ 1 → idx 2 = (b : Int) ∧ b < nbands) :
+    (wrap w X).fullSrc.get idx = P (imgRow nrows o (idx 0).toNat (idx 1).toNat) (imgCol ncols o (idx 0).toNat (idx 1).toNat) b := by
+  have hsh : (X.full Src.leaf Src.fill).shape = getShape nrows ncols nbands bd := by
+    rw [full_shape Src.leaf Src.fill X hX, hXs]
+  unfold wrap
+  rw [hn]
+  show ((Seg.orient w.2.1 w.2.2 X).full Src.leaf Src.fill).get idx = _
+  rw [orient_get, hsh]
+  obtain ⟨⟨hy0, hy1, hy⟩, ⟨hx0, hx1, hx⟩, hbb⟩ := hw.coords idx h00 h01 h10 h11
+    (fun hne => by obtain ⟨e, hlt⟩ := hb hne; rw [e]; omega)
+  have := hraw _ hy0 hy1 hx0 hx1 b (fun hne => ⟨by rw [hbb hne]; exact (hb hne).1, (hb hne).2⟩)
+  rw [show X.fullSrc = X.full Src.leaf Src.fill from rfl] at this
+  rw [this, hy, hx]
+
 end Sarpy.Props.C01.Nitf
